@@ -552,6 +552,8 @@ def _group_start(R, f, loop, value, cur_set, ae, pol=True):
                 v = st_['vars'][l.id]
                 if v == '?':
                     return None
+                if l.id == st_.get('matchvar') and isinstance(v, bool):
+                    v = True if v else None       # the matching function, or None / nothing when none matches
                 return (v is None) if isinstance(op, ast.Is) else (v is not None)
             if norm(l) == cnt and isinstance(const_val(r, None), int):
                 c = st_['cnt']
@@ -861,7 +863,9 @@ def P20(m, R):
     R.check(call_name(lp.iter) == 'sorted', f, lp, 'incoming points are merged in ascending key order', 'incoming points are visited as %s' % norm(lp.iter), construct=cons)
     ext_ok = ext is not None and isinstance(ext.op, ast.Add)
     src = norm(ext.value) if ext is not None else ''
-    R.check(ext_ok and any(isinstance(n, ast.Assign) and norm(n.targets[0]) == src and norm(n.value).endswith('.' + ro.TEXT) for n in f.walk()),
+    v_ = f.own_params()[0] if f.own_params() else 'value'
+    direct = ext is not None and src == '%s.%s' % (v_, ro.TEXT)        # self.TEXT += value.TEXT, or through a local holding value.TEXT
+    R.check(ext_ok and (direct or any(isinstance(n, ast.Assign) and norm(n.targets[0]) == src and norm(n.value).endswith('.' + ro.TEXT) for n in f.walk())),
             f, ext or f.node, 'the text is extended by the operand\'s text', construct='text extension')
 
 
